@@ -197,16 +197,27 @@ def _upgrade_scenario(fl, n0, n1, n2, n3, n4, pending, late, outcome, two, c0, c
         sut.close()
 
 
-@cond(quick=dict(N1=20, timeout=170, parts=dict(FL=[0, 1], OUT=[0, 1, 2, 3])), thorough=dict(N1=24, timeout=1200, parts=dict(FL=[0, 1], OUT=[0, 1, 2, 3], TWO=[0, 1])))
+@cond(quick=dict(N1=20, timeout=170, parts=dict(FL=[0, 1], OUT=[0, 1, 2, 3], PEND=[0, 1])), thorough=dict(N1=24, timeout=1200, parts=dict(FL=[0, 1], OUT=[0, 1, 2, 3], TWO=[0, 1], PEND=[0, 1])))
 def across_upgrade(fl: int, n0: int, n1: int, n2: int, n3: int, n4: int, pending: bool, late: bool, outcome: int,
-                   two: bool, c0: int, c1: int, bp: bool) -> str:
+                   two: bool, c0: int, c1: int) -> str:
     """
     pre: fl == P.FL and outcome == P.OUT and 0 <= n0 <= 1 and 0 <= n1 <= P.N1 and 0 <= n2 <= 1 and 0 <= n3 <= 1 and 0 <= n4 <= 1
     pre: 0 <= c0 <= 1 and 0 <= c1 <= 1 and (n1 <= 2 or n1 >= 16) and (n1 <= 2 or (c0 == 0 and c1 == 0 and not two))
-    pre: (not hasattr(P, 'TWO') or two == bool(P.TWO)) and (not bp or (outcome == 0 and n1 <= 2))
+    pre: (not hasattr(P, 'TWO') or two == bool(P.TWO)) and pending == bool(P.PEND)
     post: _ == ''
     """
-    return verdict(untraced(_upgrade_scenario, fl, n0, n1, n2, n3, n4, pending, late, outcome, two, c0, c1, 0, bp))
+    return verdict(untraced(_upgrade_scenario, fl, n0, n1, n2, n3, n4, pending, late, outcome, two, c0, c1, 0))
+
+
+@cond(quick=dict(timeout=170, parts=dict(FL=[0, 1])), thorough=dict(timeout=600, parts=dict(FL=[0, 1])))
+def across_upgrade_backpressure(fl: int, n0: int, n1: int, n2: int, n3: int, n4: int, pending: bool, late: bool, two: bool) -> str:
+    """
+    pre: fl == P.FL and 0 <= n0 <= 1 and 0 <= n1 <= 2 and 0 <= n2 <= 1 and 0 <= n3 <= 1 and 0 <= n4 <= 2
+    post: _ == ''
+    """
+    # the handshake completes while the new WebSocket is under back-pressure: the server's writes (NOOP, the packets held back
+    # during the upgrade) stay in flight while the application makes its next sends
+    return verdict(untraced(_upgrade_scenario, fl, n0, n1, n2, n3, n4, pending, late, 0, two, 0, 0, 0, True))
 
 
 def _single_transport(fl, ws, n_a, n_b, n_c, overlap, small=False):
